@@ -1132,7 +1132,15 @@ func directiveSecRuleUpdateTargetByID(options *DirectiveOptions) error {
 			if err != nil {
 				return err
 			}
-			return updateTargetBySingleID(id, variables, options)
+			if len(idsOrRanges) > 2 && options.WAF.Rules.FindByID(id) == nil {
+				// Like the members of a range, the members of a list that do not exist are skipped
+				options.WAF.Logger.Warn().Int("rule_id", id).Msg("SecRuleUpdateTargetById: rule not found, skipping")
+				continue
+			}
+			if err := updateTargetBySingleID(id, variables, options); err != nil {
+				return err
+			}
+			continue
 		} else {
 			if idx == 0 {
 				return fmt.Errorf("SecRuleUpdateTargetById: invalid negative id: %s", idOrRange)
@@ -1147,16 +1155,20 @@ func directiveSecRuleUpdateTargetByID(options *DirectiveOptions) error {
 				return err
 			}
 			if start == end {
-				return updateTargetBySingleID(start, variables, options)
+				if err := updateTargetBySingleID(start, variables, options); err != nil {
+					return err
+				}
+				continue
 			}
 			if start > end {
 				return fmt.Errorf("invalid range: %s", idOrRange)
 			}
 
-			for _, rule := range options.WAF.Rules.GetRules() {
-				if rule.ID_ >= start && rule.ID_ <= end {
+			rules := options.WAF.Rules.GetRules()
+			for i := range rules {
+				if rules[i].ID_ >= start && rules[i].ID_ <= end {
 					rp := RuleParser{
-						rule: &rule,
+						rule: &rules[i],
 						options: RuleOptions{
 							WAF: options.WAF,
 						},
@@ -1229,7 +1241,15 @@ func directiveSecRuleUpdateActionByID(options *DirectiveOptions) error {
 			if err != nil {
 				return err
 			}
-			return updateActionBySingleID(id, actions, options)
+			if len(idsOrRanges) > 2 && options.WAF.Rules.FindByID(id) == nil {
+				// Like the members of a range, the members of a list that do not exist are skipped
+				options.WAF.Logger.Warn().Int("rule_id", id).Msg("SecRuleUpdateActionById: rule not found, skipping")
+				continue
+			}
+			if err := updateActionBySingleID(id, actions, options); err != nil {
+				return err
+			}
+			continue
 		} else {
 			if idx == 0 {
 				return fmt.Errorf("SecRuleUpdateActionById: invalid negative id: %s", idOrRange)
@@ -1244,7 +1264,10 @@ func directiveSecRuleUpdateActionByID(options *DirectiveOptions) error {
 				return err
 			}
 			if start == end {
-				return updateActionBySingleID(start, actions, options)
+				if err := updateActionBySingleID(start, actions, options); err != nil {
+					return err
+				}
+				continue
 			}
 			if start > end {
 				return fmt.Errorf("invalid range: %s", idOrRange)
@@ -1342,11 +1365,12 @@ func directiveSecRuleUpdateTargetByTag(options *DirectiveOptions) error {
 		return errors.New("syntax error: SecRuleUpdateTargetByTag tag \"VARIABLES\"")
 	}
 
-	for _, rule := range options.WAF.Rules.GetRules() {
+	rules := options.WAF.Rules.GetRules()
+	for i := range rules {
 		inputTag := strings.Trim(tagAndvars[0], "\"")
-		if utils.InSlice(inputTag, rule.Tags_) {
+		if utils.InSlice(inputTag, rules[i].Tags_) {
 			rp := RuleParser{
-				rule: &rule,
+				rule: &rules[i],
 				options: RuleOptions{
 					WAF: options.WAF,
 				},
